@@ -540,7 +540,7 @@ func scenEcho(o *output, r *gen.Rng, kind int, v6 bool) {
 
 // the stack itself resolves a neighbour: ARP request / neighbour solicitation, then the datagram
 // goes to the resolved link address; with a gateway route the next hop is resolved, not the destination
-func scenResolve(o *output, r *gen.Rng, eth, v6, viaGw bool) {
+func scenResolve(o *output, r *gen.Rng, eth, v6, viaGw, alt bool) {
 	n := nicSpec{id: 1, caps: stack.CapabilityResolutionRequired, mac: string(nicMAC), eth: eth,
 		a4: []string{string(stack4)}, a6: []string{string(stack6)}}
 	routes := defaultRoutes(1)
@@ -548,6 +548,18 @@ func scenResolve(o *output, r *gen.Rng, eth, v6, viaGw bool) {
 	stackA, np := stack4, ipv4.ProtocolNumber
 	if v6 {
 		dst, hop, stackA, np = peer6, peer6, stack6, ipv6.ProtocolNumber
+	}
+	if alt {
+		// another on-link neighbour with its own link address
+		if v6 {
+			a := append([]byte(nil), peer6...)
+			a[13], a[14], a[15] = byte(r.Intn(256)), byte(r.Intn(256)), byte(3+r.Intn(250))
+			dst, hop = a, a
+		} else {
+			a := []byte{10, 0, byte(r.Intn(256)), byte(3 + r.Intn(250))}
+			dst, hop = a, a
+		}
+		hopMAC = []byte{2, 0, 0, byte(r.Intn(256)), byte(r.Intn(256)), byte(3 + r.Intn(250))}
 	}
 	if viaGw {
 		dst, hop, hopMAC = []byte{8, 8, 4, 4}, []byte{10, 0, 0, 254}, gwMAC
@@ -716,8 +728,8 @@ func scenIDs(o *output, r *gen.Rng) {
 
 // ---------------------------------------------------------------- the ping transport (echo requests)
 
-func scenPing(o *output, r *gen.Rng, v6 bool) {
-	e := newEnv(o, kPlain, v6, 1500)
+func scenPing(o *output, r *gen.Rng, kind int, v6 bool) {
+	e := newEnv(o, kind, v6, 1500)
 	defer e.close()
 	wq := &waiter.Queue{}
 	tp := ping.ProtocolNumber4
@@ -731,43 +743,113 @@ func scenPing(o *output, r *gen.Rng, v6 bool) {
 		return
 	}
 	defer ep.Close()
-	for _, n := range []int{0, 1, 8, 57} {
+	// data sizes after the 8-byte echo header: empty, odd and even, short and long (the IPv6
+	// requests were sent without the pseudo-header in their checksum before /repo 65b8ba4)
+	for _, n := range []int{0, 1, 2, 3, 8, 57, 56, 2*r.Intn(600) + 1, 2 * r.Intn(600), 1399 + r.Intn(2)} {
 		b := make([]byte, 8+n)
 		b[0] = typ
 		binary.BigEndian.PutUint16(b[6:], uint16(r.Intn(65536)))
 		copy(b[8:], pattern(r, n))
-		if _, _, er := ep.Write(tcpip.SlicePayload(b), tcpip.WriteOptions{To: &tcpip.FullAddress{NIC: 1, Addr: tcpip.Address(e.peer)}}); er != nil {
-			fmt.Fprintf(o.w, "# ping write: %s\n", er.String())
+		to := &tcpip.FullAddress{NIC: 1, Addr: tcpip.Address(e.peer)}
+		_, ch, er := ep.Write(tcpip.SlicePayload(b), tcpip.WriteOptions{To: to})
+		if er == tcpip.ErrNoLinkAddress && ch != nil {
+			select {
+			case <-ch:
+			case <-time.After(wt):
+			}
+			_, _, er = ep.Write(tcpip.SlicePayload(b), tcpip.WriteOptions{To: to})
 		}
+		if er != nil {
+			fmt.Fprintf(o.w, "# ping write of %d bytes kind %d: %s\n", len(b), kind, er.String())
+		}
+		e.p.wait(1, 20*time.Millisecond)
 	}
 	e.p.settle()
 	x := 1
 	if v6 {
 		x = 58
 	}
-	e.p.flush(o, 13, fmt.Sprintf("ping%d", map[bool]int{false: 4, true: 6}[v6]), func(capFrame) expect { return e.exp(x, -1, -1) })
+	e.p.flush(o, 13, fmt.Sprintf("ping%d-k%d", map[bool]int{false: 4, true: 6}[v6], kind), func(capFrame) expect { return e.exp(x, -1, -1) })
 }
 
-// a UDP datagram whose checksum computes to zero (known-finding pattern C06-udp-zero-checksum)
-func scenUDPZero(o *output, r *gen.Rng, v6 bool) {
-	e := newEnv(o, kPlain, v6, 1500)
-	defer e.close()
-	wq := &waiter.Queue{}
-	ep, _ := e.w.s.NewEndpoint(udp.ProtocolNumber, e.np, wq)
-	defer ep.Close()
-	lport, pport := 4000+r.Intn(1000), 5000+r.Intn(1000)
-	ep.Bind(tcpip.FullAddress{Port: uint16(lport)}, nil)
-	// choose the two payload bytes so that the one's-complement sum of pseudo-header, header and
-	// payload is 0xffff, i.e. the checksum the code stores is 0
-	hdr := make([]byte, 10)
+// UDP datagrams whose checksum computes to zero: RFC 768 has them sent with 0xffff in the field
+// (the code sent 0 = "no checksum" before /repo 723c609).  Per address family: the datagram named by
+// the former known finding (10.0.0.1:4568 -> 10.0.0.2:5535, payload c4 60; over IPv6 the payload
+// that does the same for these ports) and searched ones: random ports, a random payload of even or
+// odd length in which two bytes at an even offset are solved for a one's-complement total of 0xffff.
+func zeroSumPayload(r *gen.Rng, src, dst []byte, lport, pport, n int) []byte {
+	pl := pattern(r, n)
+	k := 0 // even offset of the two solved bytes
+	if n > 3 {
+		k = 2 * r.Intn((n-1)/2)
+	}
+	pl[k], pl[k+1] = 0, 0
+	hdr := make([]byte, 8)
 	binary.BigEndian.PutUint16(hdr[0:], uint16(lport))
 	binary.BigEndian.PutUint16(hdr[2:], uint16(pport))
-	binary.BigEndian.PutUint16(hdr[4:], 10)
-	s := netx.Sum16(hdr, netx.PseudoSum(e.stackA, e.peer, 17, 10))
+	binary.BigEndian.PutUint16(hdr[4:], uint16(8+n))
+	s := netx.Sum16(append(hdr, pl...), netx.PseudoSum(src, dst, 17, 8+n))
 	v := ^s // s + v = 0xffff
-	ep.Write(tcpip.SlicePayload([]byte{byte(v >> 8), byte(v)}), tcpip.WriteOptions{To: &tcpip.FullAddress{NIC: 1, Addr: tcpip.Address(e.peer), Port: uint16(pport)}})
-	e.p.settle()
-	e.p.flush(o, 1, "udp-zero-checksum", func(capFrame) expect { return e.exp(17, lport, pport) })
+	pl[k], pl[k+1] = byte(v>>8), byte(v)
+	if netx.Sum16(append(hdr, pl...), netx.PseudoSum(src, dst, 17, 8+n)) != 0xffff {
+		panic("zeroSumPayload: the datagram does not sum to 0xffff")
+	}
+	return pl
+}
+
+func scenUDPZero(o *output, r *gen.Rng, kind int, v6 bool) {
+	e := newEnv(o, kind, v6, 1500)
+	defer e.close()
+	type dgram struct {
+		lport, pport int
+		pl           []byte
+	}
+	ds := []dgram{{4568, 5535, nil}}
+	if !v6 {
+		ds[0].pl = []byte{0xc4, 0x60}
+	} else {
+		ds[0].pl = zeroSumPayload(r, e.stackA, e.peer, 4568, 5535, 2)
+	}
+	for _, n := range []int{2, 3, 2 * (2 + r.Intn(30)), 2*(2+r.Intn(30)) + 1, 1472} {
+		lp, pp := 1024+r.Intn(60000), 1+r.Intn(65535)
+		ds = append(ds, dgram{lp, pp, zeroSumPayload(r, e.stackA, e.peer, lp, pp, n)})
+	}
+	seen := map[string]bool{}
+	for _, d := range ds {
+		seen[fmt.Sprintf("%d/%d/%x", d.lport, d.pport, d.pl)] = true
+		wq := &waiter.Queue{}
+		ep, err := e.w.s.NewEndpoint(udp.ProtocolNumber, e.np, wq)
+		if err != nil {
+			panic(err.String())
+		}
+		if er := ep.Bind(tcpip.FullAddress{Port: uint16(d.lport)}, nil); er != nil {
+			fmt.Fprintf(o.w, "# udp-zero bind %d: %s\n", d.lport, er.String())
+			ep.Close()
+			continue
+		}
+		if _, _, er := ep.Write(tcpip.SlicePayload(d.pl), tcpip.WriteOptions{To: &tcpip.FullAddress{NIC: 1, Addr: tcpip.Address(e.peer), Port: uint16(d.pport)}}); er != nil {
+			fmt.Fprintf(o.w, "# udp-zero write: %s\n", er.String())
+		}
+		e.p.wait(1, 20*time.Millisecond)
+		e.p.settle()
+		lp, pp := d.lport, d.pport
+		// what the code put into the checksum field (metadata only; the judgement is Coq's)
+		for _, f := range e.p.all {
+			if f.printed {
+				continue
+			}
+			off := 20
+			if v6 {
+				off = 40
+			}
+			if len(f.pkt) >= off+8 {
+				o.kinds[fmt.Sprintf("udp-zero-checksum-field-%04x", binary.BigEndian.Uint16(f.pkt[off+6:]))]++
+			}
+		}
+		e.p.flush(o, 1, fmt.Sprintf("udp%d-zero-checksum-k%d", map[bool]int{false: 4, true: 6}[v6], kind), func(capFrame) expect { return e.exp(17, lp, pp) })
+		ep.Close()
+	}
+	o.kinds[fmt.Sprintf("udp%d-zero-checksum-distinct-inputs", map[bool]int{false: 4, true: 6}[v6])] += len(seen)
 }
 
 // ---------------------------------------------------------------- FindRoute
@@ -906,10 +988,6 @@ func main() {
 	log.SetOutput(io.Discard)
 	seed := flag.Uint64("seed", 1, "seed")
 	n := flag.Int("n", 1, "rounds of the randomised scenarios")
-	findings := flag.Bool("findings", false, "also run the scenarios that exhibit all three known findings")
-	fUDPZero := flag.Bool("udpzero", false, "run the UDP zero-checksum scenario (known finding C06-udp-zero-checksum)")
-	fPing6 := flag.Bool("ping6", false, "run the ping6 echo-request scenario (known finding C06-ping6-no-pseudo-header)")
-	fNDPMac := flag.Bool("ndpmac", false, "run the neighbour solicitation over Ethernet scenario (known finding C06-ndp-solicit-zero-src-mac)")
 	routes := flag.Int("routes", 60, "FindRoute configurations per round")
 	only := flag.String("only", "", "run only the scenarios whose name has this prefix (debugging)")
 	flag.Parse()
@@ -917,9 +995,6 @@ func main() {
 	if syscall.Getrlimit(syscall.RLIMIT_NOFILE, &rl) == nil {
 		rl.Cur = rl.Max
 		syscall.Setrlimit(syscall.RLIMIT_NOFILE, &rl)
-	}
-	if *findings {
-		*fUDPZero, *fPing6, *fNDPMac = true, true, true
 	}
 	r := gen.New(*seed)
 	o := &output{w: bufio.NewWriterSize(os.Stdout, 1<<20), kinds: map[string]int{}}
@@ -992,28 +1067,30 @@ func main() {
 			}
 			v6 := v6
 			guard("echo-resolve", func() { scenEcho(o, r, kResolve, v6) })
-			guard("ping", func() {
-				if !v6 || *fPing6 {
-					scenPing(o, r, v6)
-				}
-			})
+			// echo requests of the ping transport; over IPv6 also through the fd-based link
+			guard("ping", func() { scenPing(o, r, kPlain, v6) })
+			if v6 {
+				guard("ping-eth", func() { scenPing(o, r, kEth, v6) })
+			}
 			for _, eth := range []bool{false, true} {
 				eth := eth
-				// a neighbour solicitation over fdbased carries a zero source MAC (known finding)
-				if !(eth && v6) || *fNDPMac {
-					guard("resolve", func() { scenResolve(o, r, eth, v6, false) })
-				}
+				// eth && v6: the neighbour solicitation through fdbased (source MAC was 00:00:00:00:00:00
+				// before /repo 8cee966)
+				guard("resolve", func() { scenResolve(o, r, eth, v6, false, false) })
+				guard("resolve-alt", func() { scenResolve(o, r, eth, v6, false, true) })
 			}
 		}
-		guard("resolve-gw", func() { scenResolve(o, r, false, false, true) })
-		guard("resolve-gw-eth", func() { scenResolve(o, r, true, false, true) })
+		guard("resolve-gw", func() { scenResolve(o, r, false, false, true, false) })
+		guard("resolve-gw-eth", func() { scenResolve(o, r, true, false, true, false) })
 		guard("multinic", func() { scenMultiNIC(o, r) })
 		for i := 0; i < *routes; i++ {
 			guard("route", func() { scenRoute(o, r) })
 		}
-		if *fUDPZero {
-			guard("udp-zero", func() { scenUDPZero(o, r, false) })
-			guard("udp-zero6", func() { scenUDPZero(o, r, true) })
+		guard("udp-zero", func() { scenUDPZero(o, r, kPlain, false) })
+		guard("udp-zero6", func() { scenUDPZero(o, r, kPlain, true) })
+		if first {
+			guard("udp-zero-eth", func() { scenUDPZero(o, r, kEth, false) })
+			guard("udp-zero6-eth", func() { scenUDPZero(o, r, kEth, true) })
 		}
 	}
 	var ks []string
